@@ -45,6 +45,14 @@ def run(chk):
                 nontrivial, tweak=hostile)
 
 
+    # the same with the msgpack serializer (frames are msgpack blobs; the msgpack library is an oracle)
+    if not chk.broken:
+        k2 = server_hist.Knobs(n_ops=22, refuse=0.1, actions=0.0, serializer='msgpack')
+        k2.w.update({'junk': 4, 'binary': 1.5, 'event': 4, 'ack': 1.5, 'emit_cb': 1.5, 'session': 1})
+        from props import srvcommon, c03
+        hs = [server_hist.gen_history(chk.rng, k2) for _ in range(400 if chk.thorough else 40)]
+        bad = srvcommon.run_histories(chk, 'c12', hs, nontrivial=nontrivial)
+        c03.report(chk, 'c12', hs, bad, lambda cfg, ops, mode: 'c12-msgpack-%s-property' % mode)
     if not chk.violations:
         resource_guard(chk)
 
